@@ -19,6 +19,10 @@ A_VCPREFIX = "switch prefix of proof.RootFromConsistencyProof (equal sizes, size
 GETCP = "(*%s/internal/witness.Witness).GetCheckpoint" % W
 
 IM = "%s/internal/persistence/inmemory" % W
+SQ = "%s/internal/persistence/sql" % W
+SQL_FUNCS = [SQ + ".verifScenarioWrite", SQ + ".verifScenarioRefuse", SQ + ".verifScenarioRead", SQ + ".sqlLogPersistence).Logs"]
+IM_FUNCS = [IM + ".inMemoryPersistence).expectAndWrite", IM + ".verifScenarioWrite", IM + ".verifScenarioRead"]
+A_SQL = "assumed model of database/sql + go-sqlite3 (contracts/45_sql.spec): Exec of the known upsert only changes the transaction's buffer, Commit atomically and durably applies it (or, with an error, applies all or nothing), Rollback/crash discards it, Commit/Rollback/Rows.Close release the connection; SQLite, fsync and the cgo driver are not exercised"
 ASLOGMAP = "(%s/omniwitness.LogConfig).AsLogMap" % W
 WNEW = "%s/internal/witness.New" % W
 INITM = "%s/internal/witness.initMetrics$1" % W
@@ -28,7 +32,11 @@ PROPS = {
             "the induction over histories is the pure lemma history_step (discharged by SMT) applied per commit; that commits of different calls are applied in sequence is the storage contract"],
             "bounded": [], "not_decided": ["agreement of proof.VerifyConsistency with RFC 6962 ground truth (Merkle mathematics): assumed"]},
     "C02": {"funcs": [UPDATE, ASLOGMAP, WNEW], "tags": ["C02"], "assumptions": [A_NOTE, A_STORE, "formats/note.NewVerifier and log.ID are functions of their argument (assumed contracts); omniwitness.Main passing AsLogMap's result to witness.New is read, not verified (Main uses goroutines: outside the subset)"]},
-    "C03": {"funcs": [UPDATE, GETCP], "tags": ["C03"], "assumptions": [A_NOTE, A_STORE]},
+    "C03": {"runs": [{"funcs": [UPDATE, GETCP] + IM_FUNCS + SQL_FUNCS, "tags": ["C03"]}], "assumptions": [A_NOTE, A_STORE, A_SQL]},
+    "C06": {"runs": [{"funcs": SQL_FUNCS + [UPDATE], "tags": ["C06", "C04.a", "C04.b"]}], "assumptions": [A_SQL, A_NOTE,
+            "the crash points of C06 are the database-driver call boundaries; a crash inside Commit is covered only by the assumed atomicity of Commit",
+            "the scenario harness internal/persistence/sql/harness_verif.go has the same storage-call shape as Witness.Update (WriteOps; defer Close; GetLatest; Set): that Update has this shape is proved by C07.p1/p2"],
+            "not_decided": ["SQLite's own crash safety, fsync behaviour, the cgo driver (external, assumed)"]},
     "C04": {"funcs": [UPDATE, GETCP], "tags": ["C04"], "assumptions": [A_NOTE, A_STORE, "the cosignature/v1 signer stamps time.Now() when note.Sign calls it (formats/note/note_cosigv1.go): the timestamp window follows from 'the Sign call happened inside this Update call' (proved)"]},
     "C05": {"runs": [
                 {"funcs": [IM + ".inMemoryPersistence).expectAndWrite", IM + ".verifScenarioWrite", IM + ".verifScenarioRead"], "tags": ["C05"]},
@@ -37,13 +45,13 @@ PROPS = {
                             "SQL store: transaction isolation of SQLite with the single-connection pool is assumed; nothing about it is proved here",
                             "the last step 'every storage operation atomic + compare-and-set on a validated snapshot => linearizable' is a paper argument (DESIGN C05)"],
             "not_decided": ["interleavings finer than storage-operation granularity; SQL isolation; randomized race-detector schedules"]},
-    "C07": {"funcs": [UPDATE], "tags": ["C07"], "assumptions": [A_NOTE, A_STORE]},
+    "C07": {"runs": [{"funcs": [UPDATE] + SQL_FUNCS + IM_FUNCS, "tags": ["C07"]}], "assumptions": [A_NOTE, A_STORE, A_SQL]},
     "C08": {"funcs": [UPDATE], "tags": ["C08"], "assumptions": [A_NOTE, A_STORE, A_VCPREFIX]},
     "C09": {"funcs": [UPDATE], "tags": ["C09"], "assumptions": [A_NOTE, A_STORE, A_VCPREFIX]},
     "C20": {"funcs": [UPDATE, INITM], "tags": ["C20"], "assumptions": [A_NOTE, A_STORE, A_VCPREFIX, "monitoring.Counter.Inc adds one to the counter for its label (interface contract)"]},
 }
 
-HOOK_COMMITS = ["7296b73", "af7d29a", "308f21e", "b6239f6", "c655fca"]
+HOOK_COMMITS = ["7296b73", "af7d29a", "308f21e", "b6239f6", "c655fca", "35e6d9a"]
 
 NOT_APPLICABLE = {
     "C14": "whole-system liveness and timing over goroutines, tickers, HTTP servers and stub log servers ('within a bounded number of poll intervals', across restarts): no per-function contract expresses 'eventually catches up', and omniwitness.Main (go/select/errgroup) is outside the generator's subset. Its safety ingredients are decided by C01, C12, C13, C16.",
@@ -69,8 +77,10 @@ MANIFEST_TEXT = {
             "not_decided": ["interleavings finer than storage-operation granularity; SQL isolation; randomized race-detector schedules"]},
     "C05": {"level": "Thread-modular proof with the weakest rely (other threads may change the store arbitrarily between any two storage operations), covering every interleaving at storage-operation granularity for any number of threads: (1) lock discipline of the in-memory store: every access to the checkpoints map happens with mu held (exclusively for writes), every path releases what it took; (2) expectAndWrite is a compare-and-set on (absent | present with deeply equal bytes) that writes exactly its key; (3) harness scenarios (WriteOps; GetLatest; Set / ReadOps; GetLatest with interference between all operations): Set succeeds only if at that instant the store still holds the snapshot the handle handed out, then writes exactly that entry; (4) Update re-verified against the interference reading of the storage contract: accepted only if at the commit instant the store held exactly the value the decision was made against, that value justifies the step, the commit wrote the returned bytes, refusals commit nothing.",
             "note": "the step from (1)-(4) to linearizability is a paper argument; SQL isolation assumed; goroutine scheduling and the memory model are not modelled."},
+    "C06": {"level": "Crash invariant asserted at every database-driver call boundary (after Begin, QueryRow, Row.Err, Row.Scan, Exec, Commit, Rollback) of the SQL write scenario -- the real sqlLogPersistence.WriteOps, writer.GetLatest, writer.Set, writer.Close composed as Update composes them: at each boundary the durable row of this log is the old one or the new one and every other log's row is untouched; plus postconditions: Set returns nil only if Commit returned nil and then the new value is durable; every write goes through the transaction obtained in WriteOps (no statement outside it); at most one Exec and one Commit; no commit => no durable change. Update acknowledges only after Set returned nil and the written value is the cosigned result (C04.a/b re-checked here).",
+            "note": "a proof about how the code uses transactions against an ASSUMED model of database/sql + SQLite (atomic durable Commit); the database itself cannot be reached by this technique."},
     "C07": {"level": "Postconditions of Update under a faulty-store interface contract in which every storage call's error is an unconstrained symbolic value: success only after a successful Set whose value a following read returns; a failed non-NotFound read never leads to sign/Set; a failed Set gives (nil, err); the write handle is closed exactly once on every path (defers are executed symbolically). All fault patterns are covered by the universal quantification over the error values.",
-            "note": "status.Code contract assumed; SQL-driver-level faults and 'no transaction left open' for the SQL store are not part of this check yet."},
+            "note": "status.Code contract assumed. SQL side (against the assumed database/sql model): in every outcome of the write/refuse/read scenarios and of Logs() the number of open transactions/cursors returns to its entry value (Close always rolls back; a failed Begin returns no handle; rows are closed on every path); NotFound is reported iff Scan returned sql.ErrNoRows, every other driver error is passed through."},
     "C08": {"level": "Representation invariant (what is committed re-opens under the log's key and origin) and 'honest step => accepted' as postconditions of Update for all sizes 0..2^64-1. Both fail on the real code in a precisely delimited region (F1: more than 100 signature lines after cosigning; F2: stored size 0 < submitted size); the counterexamples were replayed on the real witness, are recorded as known findings, and the obligations are proved outside the regions.",
             "note": "note.Open/Sign signature-count contract and the switch prefix of proof.RootFromConsistencyProof are assumed clauses read from the pinned dependency sources."},
     "C09": {"level": "Update's postcondition is the ordered decision table: one ensures clause per row with the spec-level first-match verdict computed from the entry state (known log, signature verdict, abstract store content, three 64-bit sizes, root equality, proof emptiness, vc verdict); sentinel errors compared by identity; path-complete, all of uint64^3.",
